@@ -16,7 +16,7 @@ META = {
         "non-trivial when the mesh has >= 2 cells along at least two directions (an axis "
         "transposition is then visible) or, for fault cases, always."
     ),
-    "cases": {"quick": 320, "thorough": 4800},
+    "cases": {"quick": 320, "thorough": 14400},
     "workers": {"quick": 8, "thorough": 16},
     "timeout": {"quick": 600, "thorough": 5400},
     "deciding": [
